@@ -104,6 +104,27 @@ const METAS: &[PropMeta] = &[
         assumptions: &["a 50 ms wait decides only when the parked worker is released, never a verdict", "same-process reopen; cross-process reopen differs only in the flock, which C13 covers"],
         min_distinct: 20,
     },
+    PropMeta {
+        id: "C09",
+        level: "fault_enumeration",
+        rule: "clean images (1-6 chunk files) are produced by the store itself from generated histories; then EVERY byte position inside every complete record of every chunk file is replaced (quick: the 8 single-bit flips, 0x00, 0xFF and 2 random values; thorough: all 255 other values, images marked exhaustive) and every middle chunk is removed. Each mutated image is opened by the real store under catch_unwind: it must not panic; it must refuse (or report an error when reading every entry) - an open that succeeds without any error is a violation whether or not state/entries differ; when open refuses, every chunk file other than the newest must be byte-identical afterwards. Mutations are classified by the reference codec (field: type tag/version/option tag/integer/length prefix/bytes/checksum; head snapshot vs other record; newest vs older chunk). A case = one mutated image opened; distinct = distinct clean images swept.",
+        assumptions: &["CRC-32 detects every single-byte change, so no single-byte mutation is semantically neutral", "known findings D11a/D11b are matched only by their exact witness signatures"],
+        min_distinct: 4,
+    },
+    PropMeta {
+        id: "C10",
+        level: "fault_enumeration",
+        rule: "clean images as in C09; the newest chunk is cut at EVERY byte position 0..=len, and its tail from EVERY record boundary is replaced by zeros of length {1,2,3,7,8,19,20,21,27,28,29,64,1023,1024,1025,33792}. With tail truncation enabled: open must succeed, state and entries must equal the reference replay of exactly the records completely present, afterwards no file may keep a damaged tail and the damaged file must end at the last complete record, the directory must replay to the same state, and 5 further writes + flush + restart must agree with the model. With truncate_incomplete_record=false: an image with an incomplete/zero tail must be refused with every file untouched; a cut exactly on a record boundary must open with exactly the records present. A case = one open; distinct = distinct clean images.",
+        assumptions: &["an empty newest chunk file (cut at 0) counts as cut on a boundary"],
+        min_distinct: 4,
+    },
+    PropMeta {
+        id: "C13",
+        level: "exploration",
+        rule: "a directory holding a clean store-made image (data, nothing pending) is contended for by 2-8 threads of one process and by 2-6 child processes, each looping {RaftLog::open or Dump::new (1 in 3); if Ok: use it (read all entries / dump), hold briefly, drop}. Threads: an atomic owner counter incremented after open returned Ok and decremented before drop starts must never exceed 1. Processes: ownership intervals [after open Ok, before drop] on CLOCK_MONOTONIC are merged offline and must not overlap. After every refused attempt (threads) and at the end (both) the chunk files must be byte-identical to the original image; after all contenders are gone open must succeed. A case = one attempt (acquisition or refusal); distinct = rounds in which both acquisitions and refusals were observed.",
+        assumptions: &["one host, local file system (tmpfs); flock semantics of Linux", "owners do not write, so any change of a chunk file is attributable to an attempt"],
+        min_distinct: 8,
+    },
 ];
 
 fn meta(prop: &str) -> Option<&'static PropMeta> {
@@ -119,6 +140,8 @@ fn run_shard(ctx: &mut Ctx) {
         "C03" | "C05" => props::crash::run_shard(ctx),
         "C07" | "C15" => props::cache::run_shard(ctx),
         "C14" => props::c14::run_shard(ctx),
+        "C09" | "C10" => props::image::run_shard(ctx),
+        "C13" => props::c13::run_shard(ctx),
         p => ctx.out.inconclusive.push(format!("no engine for {}", p)),
     }
 }
@@ -143,6 +166,7 @@ fn main() {
         "check" => cmd_check(&args),
         "shard" => cmd_shard(&args),
         "replay" => cmd_replay(&args),
+        "c13-child" => props::c13::child_main(&args),
         _ => {
             eprintln!("usage: rlmon check <Cnn> [--tier quick|thorough] [--seed N] [--shards N] | replay <file>");
             2
@@ -252,6 +276,9 @@ fn cmd_replay(args: &[String]) -> i32 {
         "c08" => props::c08::replay(rp),
         "crash" => props::crash::replay(rp),
         "c14" => props::c14::replay(rp),
+        "c13" => props::c13::replay(rp),
+        "c09" => props::image::replay(rp, true),
+        "c10" => props::image::replay(rp, false),
         "c07" => props::cache::replay(rp, true),
         "c15" => props::cache::replay(rp, false),
         k => {
